@@ -1,0 +1,6 @@
+//go:build !verif
+
+package file
+
+// verifCrashPoint is a verification hook; it does nothing in the default build.
+func verifCrashPoint(string, string) {}
